@@ -151,7 +151,8 @@ def jobs(tier):
 INDIRECT = ["virtual-raises-in-sub", "dict-of-list-of-configs", "list-of-list-of-configs", "dict-of-dict-of-list-of-configs", "sub:dict-of-list-of-configs", "sub:list-of-list-of-configs",
             "untyped-list-holds-configs", "any-holds-config-list", "dynamic-holds-config-list", "sub:untyped-list-holds-configs", "virtual-returns-item", "virtual-returns-sub", "dynamic-holds-config", "late-attr", "late-item", "late-dotted-item", "late-auto-sub",
             "late-in-item-schema", "flag-off-sub", "flag-off-root", "flag-off-item",
-            "dynamic-then-declared", "dynamic-then-declared-reassigned", "dynamic-then-declared-secure", "empty-sensitive-typed-containers", "non-ascii-secrets"]
+            "dynamic-then-declared", "dynamic-then-declared-reassigned", "dynamic-then-declared-secure", "empty-sensitive-typed-containers", "non-ascii-secrets",
+            "raises:dict-of-list-of-configs", "raises:list-of-list-of-configs", "reentrant-virtual", "reentrant:dict-of-list-of-configs", "reentrant:list-of-list-of-configs"]
 
 
 def _sec_s(variant):
@@ -169,6 +170,12 @@ def _nonplain(node):
 
 def _indirect_world(variant, keypath, prior_render):
     import cincoconfig as cc
+    raises = variant.startswith("raises:")      # ... plus a virtual field whose getter fails: renderings with virtual=True raise part-way
+    if raises:
+        variant = variant[7:]
+    reentrant = variant.startswith("reentrant:") or variant == "reentrant-virtual"
+    if variant.startswith("reentrant:"):
+        variant = variant[10:]
 
     def node(sch):
         sch.sec_s = cc.StringField(sensitive=True)
@@ -210,9 +217,13 @@ def _indirect_world(variant, keypath, prior_render):
             nested_val = lambda: {"o": {"k": [mk()]}}  # noqa
     if variant == "virtual-returns-item":
         s.first = cc.VirtualField(lambda cfg: cfg.items[0] if cfg.items else None)
-    if variant == "virtual-raises-in-sub":
+    if variant == "virtual-raises-in-sub" or raises:
         # a virtual field of the sub-configuration whose getter fails (TypeError) when virtual fields are rendered
         s.sub.broken = cc.VirtualField(lambda cfg: cfg.sec_s + 1)
+    if reentrant:
+        # a virtual field (declared before everything else) whose getter renders its own configuration: a fingerprint of the settings
+        s.zz_fingerprint = cc.VirtualField(lambda cfg: len(cfg.dumps("json")) + len(cfg.to_tree()))
+        s._fields.move_to_end("zz_fingerprint", last=False)
     if variant == "virtual-returns-sub":
         s.alias = cc.VirtualField(lambda cfg: cfg.sub)
     vals = {"sec_s": _sec_s(variant), "sec_x": "XSECRET-q9", "pub_s": "PUBLIC-abc"}
@@ -303,6 +314,10 @@ def _indirect(job, ctx):
                     ctx.case(("indirect", variant, repr(ident)), "indirect:unsupported", False)
                     continue
                 try:
+                    plain0 = cfg.to_tree()
+                except Exception:  # noqa
+                    plain0 = None
+                try:
                     plain = cfg.to_tree(virtual=virtual)
                 except Exception as exc:  # noqa
                     plain = None            # this configuration cannot be rendered this way at all; a masked attempt may fail too, but not leak
@@ -310,10 +325,20 @@ def _indirect(job, ctx):
                 try:
                     masked = cfg.to_tree(virtual=virtual, sensitive_mask=mask)
                 except Exception as exc:  # noqa
+                    masked = None
                     if plain is not None:
                         bad("to_tree-raises", "the masked rendering raised %r, the plain one did not" % (exc,))
                     else:
                         ctx.case(("indirect", variant, repr(ident)), "indirect:unrenderable", False)
+                # whatever the masked rendering did (it may have failed part-way), a rendering without a mask shows what is stored
+                if plain0 is not None:
+                    try:
+                        again = cfg.to_tree()
+                    except Exception as exc:  # noqa
+                        again = "raised %r" % (exc,)
+                    if V.canon(again) != V.canon(plain0):
+                        bad("unmasked-render-altered", "after a masked rendering, to_tree() without a mask gives %s instead of %s" % (V.show(again, 120), V.show(plain0, 120)))
+                if masked is None:
                     continue
                 if plain is None:
                     plain = masked
